@@ -100,6 +100,13 @@ func c13GenFormat(g *core.Gen, fmtName string, set int, files []string, content 
 				}
 			}
 		} else {
+			// the 16 KiB boundary of the first-16-KiB hashes, and the middle
+			for _, at := range []int{16383, 16384, 16385, len(b) / 2, len(b) - 1} {
+				if at > 0 && at < len(b) {
+					emit(fileOp{Path: f, Op: "trunc", At: at})
+					emit(fileOp{Path: f, Op: "flip", At: at - 1, Bit: 5})
+				}
+			}
 			if g.Thorough() {
 				// thorough: truncation at EVERY byte offset and every 13th bit of the larger sets too
 				for at := 0; at < len(b); at++ {
